@@ -19,7 +19,14 @@ type Result struct {
 	Output string
 	Query  string
 	Ex     *symex.Exec
+	// thorough tier: every solver that answered unsat on this query (independent confirmation)
+	Confirmed []string
 }
+
+// ConfirmAll (thorough tier): after an obligation is discharged, the same query is given to
+// every installed solver; the answers are recorded, and a solver answering sat where
+// another answered unsat turns the result into an engine error.
+var ConfirmAll bool
 
 // OK tells whether the obligation counts as discharged (must-fail canaries are inverted).
 func (r Result) OK() bool {
@@ -90,6 +97,22 @@ func Discharge(jobs []Job, timeout time.Duration, seed int, workers int) []Resul
 					}
 				}
 				res[i] = Result{Obl: j.Obl, Status: r.Status, Solver: r.Solver, Ms: r.Ms, Ex: j.Ex}
+				if ConfirmAll && r.Status == smt.Unsat && j.Obl.Note != "must-fail" {
+					ct := timeout
+					if ct > 10*time.Second {
+						ct = 10 * time.Second
+					}
+					for _, a := range smt.SolveAll(q, ct, seed) {
+						switch a.Status {
+						case smt.Unsat:
+							res[i].Confirmed = append(res[i].Confirmed, a.Solver)
+						case smt.Sat:
+							res[i].Status = smt.Error
+							res[i].Output = "solvers disagree: " + r.Solver + " answered unsat, " + a.Solver + " answered sat"
+							res[i].Query = q
+						}
+					}
+				}
 				if r.Status != smt.Unsat || j.Obl.Note == "must-fail" {
 					res[i].Model, res[i].Output, res[i].Query = r.Model, r.Output, q
 				}
